@@ -1,8 +1,9 @@
 # Builds the conformance harnesses from the CURRENT working tree of $(REPO).
-# Targets: build/<name>.<variant>   (source: harness/<name>.cpp)
+# Targets: $(B)/<name>.<variant>   (source: harness/<name>.cpp); B defaults to build (seed evaluation uses a scratch directory)
 REPO ?= /repo
+B ?= build
 INC  := $(REPO)/Include
-HDRS := $(wildcard $(INC)/*.hpp) $(wildcard harness/*.hpp) build/headers.sha
+HDRS := $(wildcard $(INC)/*.hpp) $(wildcard harness/*.hpp) $(B)/headers.sha
 GUARD := -DQENTEM_VERIF=1
 CXXSTD := -std=c++17
 WARN := -w
@@ -11,52 +12,52 @@ CLANGXX ?= clang++
 COMMON := $(CXXSTD) $(WARN) -fno-exceptions -pthread -I$(INC) -Iharness
 SAN := -fsanitize=address,undefined -fno-sanitize=alignment,function,vptr,float-cast-overflow -fno-sanitize-recover=all -fno-omit-frame-pointer -g -O1
 
-build/headers.sha:
-	@mkdir -p build
+$(B)/headers.sha:
+	@mkdir -p $(B)
 	@touch $@
 
-build/%.plain: harness/%.cpp $(HDRS)
-	@mkdir -p build
+$(B)/%.plain: harness/%.cpp $(HDRS)
+	@mkdir -p $(B)
 	$(GXX) $(COMMON) -O2 -march=native -DQENTEM_SSE2=1 $< -o $@
 
-build/%.scalar: harness/%.cpp $(HDRS)
-	@mkdir -p build
+$(B)/%.scalar: harness/%.cpp $(HDRS)
+	@mkdir -p $(B)
 	$(GXX) $(COMMON) -O2 -march=native $< -o $@
 
-build/%.avx2: harness/%.cpp $(HDRS)
-	@mkdir -p build
+$(B)/%.avx2: harness/%.cpp $(HDRS)
+	@mkdir -p $(B)
 	$(GXX) $(COMMON) -O2 -march=native -DQENTEM_AVX2=1 $< -o $@
 
-build/%.noesc: harness/%.cpp $(HDRS)
-	@mkdir -p build
+$(B)/%.noesc: harness/%.cpp $(HDRS)
+	@mkdir -p $(B)
 	$(GXX) $(COMMON) -O2 -march=native -DQENTEM_SSE2=1 -DQENTEM_AUTO_ESCAPE_HTML=0 $< -o $@
 
-build/%.asan: harness/%.cpp $(HDRS)
-	@mkdir -p build
+$(B)/%.asan: harness/%.cpp $(HDRS)
+	@mkdir -p $(B)
 	$(CLANGXX) $(COMMON) $(SAN) -march=native -DQENTEM_SSE2=1 -DVERIF_ASAN=1 $< -o $@
 
-build/%.xasan: harness/%.cpp $(HDRS)
-	@mkdir -p build
+$(B)/%.xasan: harness/%.cpp $(HDRS)
+	@mkdir -p $(B)
 	$(CLANGXX) $(COMMON) $(GUARD) $(SAN) -march=native -DQENTEM_SSE2=1 -DVERIF_ASAN=1 $< -o $@
 
-build/%.asan_scalar: harness/%.cpp $(HDRS)
-	@mkdir -p build
+$(B)/%.asan_scalar: harness/%.cpp $(HDRS)
+	@mkdir -p $(B)
 	$(CLANGXX) $(COMMON) $(SAN) -march=native -DVERIF_ASAN=1 $< -o $@
 
-build/%.asan_avx2: harness/%.cpp $(HDRS)
-	@mkdir -p build
+$(B)/%.asan_avx2: harness/%.cpp $(HDRS)
+	@mkdir -p $(B)
 	$(CLANGXX) $(COMMON) $(SAN) -march=native -DQENTEM_AVX2=1 -DVERIF_ASAN=1 $< -o $@
 
-build/%.asan_noesc: harness/%.cpp $(HDRS)
-	@mkdir -p build
+$(B)/%.asan_noesc: harness/%.cpp $(HDRS)
+	@mkdir -p $(B)
 	$(CLANGXX) $(COMMON) $(SAN) -march=native -DQENTEM_SSE2=1 -DQENTEM_AUTO_ESCAPE_HTML=0 -DVERIF_ASAN=1 $< -o $@
 
-build/%.tsan: harness/%.cpp $(HDRS)
-	@mkdir -p build
+$(B)/%.tsan: harness/%.cpp $(HDRS)
+	@mkdir -p $(B)
 	$(CLANGXX) $(COMMON) -fsanitize=thread -g -O1 -march=native -DQENTEM_SSE2=1 -DVERIF_TSAN=1 $< -o $@ -lpthread
 
-build/%.f16: harness/%.cpp $(HDRS)
-	@mkdir -p build
+$(B)/%.f16: harness/%.cpp $(HDRS)
+	@mkdir -p $(B)
 	$(GXX) -std=c++23 $(WARN) -fno-exceptions -I$(INC) -Iharness -O2 -march=native -DQENTEM_SSE2=1 -DQENTEM_ENABLE_FLOAT_16=1 $< -o $@
 
 clean:
@@ -66,5 +67,5 @@ clean:
 SETUP_BINS := $(shell cat setup_bins.txt 2>/dev/null)
 setup:
 	@python3 tools/stamp.py
-	@$(MAKE) -s -j16 $(addprefix build/,$(SETUP_BINS))
+	@$(MAKE) -s -j16 $(addprefix $(B)/,$(SETUP_BINS))
 	@echo setup done
